@@ -22,11 +22,19 @@
     one function therefore never share a recursion key (witness: two components for one rec
     node). One instantiation is emitted once: the keys of the reference table of a program are
     pairwise distinct ([C09_components_distinct]).
-    Not proved: the link between the graph of [cycles_check] and [Strat.stratified] is the tie,
-    not a theorem; component names are hashes of these keys in the code (sha256, distinct
+    From the check to the evaluator: every referential declaration on a cycle is flagged
+    ([C09_marks_cover]), so an accepted graph has no cycle that avoids the flagged declarations
+    ([C09_flagged_cut_every_cycle]); if the graph has an edge for every use of a declaration in
+    another's right-hand side and flagged declarations are the ones the evaluator memoises (how
+    compile.rs builds the graph and stores the flags: two hypotheses, observed by the
+    stratification tie), the program has no cycle of uses avoiding memoised declarations
+    ([C09_accepted_is_acyclic]) and, its bodies being first order, it is stratified
+    ([C09_accepted_first_order_is_stratified]); [Strat.stratified] itself is exactly "first-order
+    bodies and no such cycle" ([C09_stratified_iff]: the relaxation finds ranks whenever ranks
+    exist). Component names are hashes of these keys in the code (sha256, distinct
     inputs are assumed to give distinct names; the relocation monitor observes them). *)
 From Oal Require Import Cycles CyclesProofs.
-From Oal Require Eval Strat TermProofs ClosureProofs FreshProofs.
+From Oal Require Eval Strat TermProofs ClosureProofs FreshProofs RankProofs RecursionLink.
 
 Theorem C09_cycles_check_spec :
   forall referential scc, scc_spec scc -> forall fuel ns g marks,
@@ -120,3 +128,40 @@ Example C09_two_instantiations :
     Eval.eval_program false FreshProofs.ex_inst_P 50 FreshProofs.ex_inst_rs =
     Eval.Ok (rels, [(Eval.KRec 0 9 1, s1); (Eval.KRec 0 9 3, s2)]) /\ s1 <> s2.
 Proof. exact FreshProofs.ex_two_instantiations. Qed.
+
+(** from the recursion check to stratification *)
+Theorem C09_marks_cover : forall referential scc, scc_spec scc -> forall fuel ns g marks marks',
+  cycles_check referential scc fuel ns g marks = COk marks' ->
+  (forall n, In n marks -> In n marks') /\ (forall n, walk g n n -> referential n = true -> In n marks').
+Proof. exact marks_cover. Qed.
+Print Assumptions C09_marks_cover.
+
+Theorem C09_flagged_cut_every_cycle : forall referential scc, scc_spec scc -> forall ns g marks',
+  cycles_check referential scc (S (length g)) ns g [] = COk marks' ->
+  ~ exists n, walkP (fun x => ~ In x marks') g n n.
+Proof. exact flagged_cut_every_cycle. Qed.
+Print Assumptions C09_flagged_cut_every_cycle.
+
+Theorem C09_stratified_iff : forall P rs,
+  Strat.stratified P rs = true <->
+  ~ RankProofs.cyclic P /\ (forall m i d, Eval.get_decl P m i = Some d -> Strat.fo P (Eval.d_rhs d) = true) /\
+  (forall r, In r rs -> Strat.fo P r = true).
+Proof. exact RankProofs.stratified_iff. Qed.
+Print Assumptions C09_stratified_iff.
+
+Theorem C09_accepted_is_acyclic : forall P referential scc, scc_spec scc -> forall (nu : N -> N -> N) ns g marks,
+  (forall x y, RankProofs.edge P x y -> In (nu (fst x) (snd x), nu (fst y) (snd y)) g) ->
+  (forall m i, In (nu m i) marks -> Strat.cutb P m i = true) ->
+  cycles_check referential scc (S (length g)) ns g [] = COk marks ->
+  ~ RankProofs.cyclic P.
+Proof. exact RecursionLink.accepted_is_acyclic. Qed.
+Print Assumptions C09_accepted_is_acyclic.
+
+Theorem C09_accepted_first_order_is_stratified : forall P referential scc, scc_spec scc -> forall (nu : N -> N -> N) ns g marks,
+  (forall x y, RankProofs.edge P x y -> In (nu (fst x) (snd x), nu (fst y) (snd y)) g) ->
+  (forall m i, In (nu m i) marks -> Strat.cutb P m i = true) ->
+  cycles_check referential scc (S (length g)) ns g [] = COk marks ->
+  forall rs, (forall m i d, Eval.get_decl P m i = Some d -> Strat.fo P (Eval.d_rhs d) = true) -> (forall r, In r rs -> Strat.fo P r = true) ->
+  Strat.stratified P rs = true.
+Proof. exact RecursionLink.accepted_first_order_is_stratified. Qed.
+Print Assumptions C09_accepted_first_order_is_stratified.
